@@ -57,6 +57,7 @@ func bld(profile, n, schemes int) map[string]int {
 }
 
 const histDesc = "world of n registrations drawn from the kit (symbolic lifetime, identity form, dependency shape per registration; profile = sub-space), real Build, fixed scope tree (provider, scope, child, sibling), L symbolic resolutions then two sweeps resolving every identity at every node; every observed object is bound to the reference model (identity, producer, arguments, constructor counts)"
+const rebuildDesc = "a collection that was already built once (verdict symbolic) is edited - one registration removed and registered again with a symbolic other lifetime and dependency shape, so that the registration count is unchanged - and built again: the second Build is judged against the model of the edited set exactly like a fresh collection (cycle / lifetime / missing-dependency verdict classes, resolvability, captive instances)"
 const buildDesc = "world of n registrations (profile = sub-space of forms and dependency shapes incl. cycles, scoped targets, unregistered targets); Build verdict class vs the model's dependency relation; on success every identity resolved from a fresh scope"
 
 func init() {
@@ -86,19 +87,21 @@ func init() {
 			h("cont.H_Hist", noAs2(hist(1, 3, 2, 0, 1)), noAs2(hist(1, 3, 4, 1, 1)), histCov, 0, histDesc),
 			h("cont.H_Hist", noAs2(hist(2, 2, 2, 0, 1)), noAs2(hist(2, 2, 4, 1, 1)), histCov, 0, histDesc),
 			h("cont.H_Hist", noAs2(hist(4, 2, 3, 1, 1)), noAs2(hist(4, 2, 4, 2, 1)), histCov, 20, histDesc),
-			h("cont.H_FuncKinds", map[string]int{"order_schemes": 1}, map[string]int{"order_schemes": 2}, []string{"resolved"}, 20, "two registrations under two names whose constructors are function values of one kind {top-level functions, closures of one //go:noinline factory, method values of one method, two generic instantiations, reflect.MakeFunc functions, closures consuming a MakeFunc-built dependency of another signature, one generic instantiation twice} x lifetime x registration order: each identity must be produced by exactly the function value registered for it"),
+			h("cont.H_FuncKinds", map[string]int{"order_schemes": 1}, map[string]int{"order_schemes": 2}, []string{"resolved"}, 20, "two registrations under two names whose constructors are function values of one kind {top-level functions, closures of one //go:noinline factory, method values of one method, two generic instantiations, reflect.MakeFunc functions, closures consuming a MakeFunc-built dependency of another signature, one generic instantiation twice, constructors whose parameter objects are two function-local types of the same name with differently tagged fields} x lifetime x registration order: each identity must be produced by exactly the function value registered for it"),
 		}},
 		propertySpec{ID: "C07", Harnesses: []harnessSpec{
 			h("cont.H_Build", bld(0, 3, 1), bld(0, 3, 2), append([]string{"model_conflict"}, buildCov...), 30, buildDesc),
 			h("cont.H_Build", bld(1, 2, 2), bld(1, 2, 4), append([]string{"model_conflict"}, buildCov...), 0, buildDesc),
 			h("cont.H_Build", bld(2, 2, 1), bld(2, 3, 1), buildCov, 0, buildDesc),
 			h("cont.H_Build", bld(4, 2, 2), bld(4, 3, 2), buildCov, 0, buildDesc),
+			h("cont.H_Rebuild", bld(3, 2, 1), bld(0, 2, 1), append([]string{"model_conflict", "first_build_ok", "first_build_failed"}, buildCov...), 20, rebuildDesc),
 		}},
 		propertySpec{ID: "C08", Harnesses: []harnessSpec{
 			h("cont.H_Build", bld(0, 3, 1), bld(0, 3, 2), buildCov, 30, buildDesc),
 			h("cont.H_Build", bld(1, 2, 2), bld(1, 2, 4), buildCov, 0, buildDesc),
 			h("cont.H_Build", bld(2, 2, 2), bld(2, 3, 1), buildCov, 0, buildDesc),
 			h("cont.H_Build", bld(4, 2, 2), bld(4, 3, 2), buildCov, 0, buildDesc),
+			h("cont.H_Rebuild", bld(3, 2, 1), bld(0, 2, 1), append([]string{"first_build_ok", "first_build_failed"}, buildCov...), 0, rebuildDesc),
 		}},
 	)
 	dsp := func(profile, n, nodes, L, closes, faults, errmask int) map[string]int {
@@ -180,12 +183,16 @@ func init() {
 	)
 	hc := h("cont.H_Conc", conc(1), conc(1), []string{"both_done"}, 10, concDesc)
 	hrace := h("cont.H_Conc", map[string]int{"ops": 1, "order_schemes": 1, "race": 1, "worlds": 4}, map[string]int{"ops": 1, "order_schemes": 1, "race": 1, "worlds": 4}, []string{"both_done"}, 0, concDesc+"; with the VM's happens-before (vector clock) race detector on every memory cell and map the container's own code touches; a race is confirmed by Go's race detector on free-running native goroutines")
+	hc1 := hc // hrace explores the same space with the race detector on: the plain run stays small in the quick tier
+	hc1.Quick = map[string]int{"ops": 1, "order_schemes": 1, "worlds": 1}
 	hrace2 := hrace
 	hrace2.Quick = map[string]int{"ops": 1, "order_schemes": 1, "race": 1, "worlds": 1}
 	hrace2.Thorough = map[string]int{"ops": 2, "order_schemes": 1, "race": 1, "worlds": 1}
 	hcb := h("cont.H_CloseInCallback", map[string]int{"order_schemes": 1}, map[string]int{"order_schemes": 2}, []string{"callback_closed"}, 10, cbDesc)
 	properties = append(properties,
-		propertySpec{ID: "C09", Harnesses: []harnessSpec{hc, hcb, hrace, hrace2}},
+		propertySpec{ID: "C09", Harnesses: []harnessSpec{hc1, hcb, hrace, hrace2,
+			h("cont.H_SharedCodeConc", map[string]int{"rounds": 2, "order_schemes": 1}, map[string]int{"rounds": 3, "order_schemes": 1}, []string{"both_done"}, 10, "(happens-before race detector on) scoped or transient services whose constructors are reflect.MakeFunc values of two different signatures - natively one code pointer, so the analysis cache keeps being rewritten after Build - resolved alternately by two goroutines in their own scopes; every interleaving at the resolution boundaries; no race, no panic, no error, each service built by its own constructor"),
+		}},
 		propertySpec{ID: "C13", Harnesses: []harnessSpec{
 			h("cont.H_Closed", map[string]int{"order_schemes": 2}, map[string]int{"order_schemes": 4}, []string{"close_node", "cancel_scope_ctx", "cancel_child_ctx"}, 20, closedDesc),
 			hcb, hc,
@@ -210,12 +217,14 @@ func init() {
 			properties[i].Harnesses = append(properties[i].Harnesses,
 				h("cont.H_Build", bld(0, 3, 1), bld(0, 3, 2), append([]string{"model_cycle"}, buildCov...), 30, buildDesc),
 				h("cont.H_Build", bld(1, 2, 2), bld(1, 2, 4), append([]string{"model_cycle"}, buildCov...), 0, buildDesc),
-				h("cont.H_Build", bld(4, 2, 2), bld(4, 3, 2), buildCov, 0, buildDesc))
+				h("cont.H_Build", bld(4, 2, 2), bld(4, 3, 2), buildCov, 0, buildDesc),
+				h("cont.H_Rebuild", bld(3, 2, 1), bld(0, 2, 1), append([]string{"first_build_ok", "first_build_failed"}, buildCov...), 0, rebuildDesc))
 		case "C06":
 			properties[i].Harnesses = append(properties[i].Harnesses,
 				h("cont.H_Order", bld(3, 3, 2), bld(0, 3, 2), []string{"both_built", "both_failed_or_differ"}, 20, "the same world registered and built twice: registration order permuted (intra-group order kept) and another map-order scheme; verdict classes equal, wiring of both isomorphic to the model, every singleton constructed after the singletons it received"),
 				h("cont.H_Order", bld(0, 2, 2), bld(0, 2, 4), []string{"both_built", "both_failed_or_differ"}, 0, "as above, every plain dependency shape on two registrations"),
-				h("cont.H_Order", bld(1, 2, 2), bld(1, 2, 4), []string{"both_built", "both_failed_or_differ"}, 0, "as above on keyed / group / interface edges"))
+				h("cont.H_Order", bld(1, 2, 2), bld(1, 2, 4), []string{"both_built", "both_failed_or_differ"}, 0, "as above on keyed / group / interface edges"),
+				h("cont.H_Order", bld(5, 4, 1), bld(5, 4, 2), []string{"both_built", "both_failed_or_differ"}, 0, "as above on four singleton registrations: consumers of an interface-typed value group, group members with plain dependencies of their own (a member may sit deeper in the graph than the members registered after it); four registration orders"))
 		}
 	}
 }
